@@ -59,6 +59,7 @@ type Exec struct {
 	optOverride map[string]string
 	AbstractMul bool
 	pool        *Pool
+	deadline    time.Time
 	Havoc       *HavocEnv
 	feasCalls   int
 	feasPruned  int
@@ -493,6 +494,9 @@ func (fr *Frame) execBlock(b *ssa.BasicBlock, ins []Snap) []outEdge {
 	fr.pc, fr.heap, fr.regs = G, heap, regs
 	for _, in := range b.Instrs[nphi:] {
 		ex.steps++
+		if ex.steps&15 == 0 && !ex.deadline.IsZero() && time.Now().After(ex.deadline) {
+			panic(unsupported(fmt.Sprintf("symbolic execution budget exceeded after %d SSA steps (%d terms)", ex.steps, len(ex.ts.nodes))))
+		}
 		switch i := in.(type) {
 		case *ssa.If:
 			c := fr.eval(i.Cond).(*VBV).T
